@@ -43,6 +43,9 @@ type vn struct {
 	Elems []*vn   `json:"elems,omitempty"` // slice/array elements, struct fields in declaration order, map values
 	Keys  []*vn   `json:"keys,omitempty"`  // map keys, parallel to Elems
 	Ptr   *vn     `json:"ptr,omitempty"`
+	// Shared (non-nil pointers): siblings of the same pointer type that are marked Shared hold the very same Go pointer (the
+	// first one's): aliasing inside one value
+	Shared bool `json:"shared,omitempty"`
 }
 
 type c10Case struct {
@@ -223,7 +226,7 @@ func genValue(t *rapid.T, rt reflect.Type, depth int) *vn {
 		if rapid.IntRange(0, 4).Draw(t, "nilptr") == 0 {
 			return &vn{Nil: true}
 		}
-		return &vn{Ptr: genValue(t, rt.Elem(), depth-1)}
+		return &vn{Ptr: genValue(t, rt.Elem(), depth-1), Shared: rapid.IntRange(0, 2).Draw(t, "sharedptr") == 0}
 	case reflect.Slice:
 		if rapid.IntRange(0, 5).Draw(t, "nilslice") == 0 {
 			return &vn{Nil: true}
@@ -334,32 +337,52 @@ func build(rt reflect.Type, v *vn) reflect.Value {
 		}
 	case reflect.Slice:
 		if !v.Nil {
+			child := sharing()
 			s := reflect.MakeSlice(rt, 0, len(v.Elems))
 			for _, e := range v.Elems {
-				s = reflect.Append(s, build(rt.Elem(), e))
+				s = reflect.Append(s, child(rt.Elem(), e))
 			}
 			out.Set(s)
 		}
 	case reflect.Array:
+		child := sharing()
 		for i := 0; i < rt.Len() && i < len(v.Elems); i++ {
-			out.Index(i).Set(build(rt.Elem(), v.Elems[i]))
+			out.Index(i).Set(child(rt.Elem(), v.Elems[i]))
 		}
 	case reflect.Map:
 		if !v.Nil {
+			child := sharing()
 			m := reflect.MakeMap(rt)
 			for i := range v.Keys {
 				if i < len(v.Elems) {
-					m.SetMapIndex(build(rt.Key(), v.Keys[i]), build(rt.Elem(), v.Elems[i]))
+					m.SetMapIndex(build(rt.Key(), v.Keys[i]), child(rt.Elem(), v.Elems[i]))
 				}
 			}
 			out.Set(m)
 		}
 	case reflect.Struct:
+		child := sharing()
 		for i := 0; i < rt.NumField() && i < len(v.Elems); i++ {
-			out.Field(i).Set(build(rt.Field(i).Type, v.Elems[i]))
+			out.Field(i).Set(child(rt.Field(i).Type, v.Elems[i]))
 		}
 	}
 	return out
+}
+
+// sharing returns a builder for the children of one container: pointer children marked Shared get the same Go pointer per type.
+func sharing() func(rt reflect.Type, v *vn) reflect.Value {
+	first := map[reflect.Type]reflect.Value{}
+	return func(rt reflect.Type, v *vn) reflect.Value {
+		if rt.Kind() == reflect.Pointer && v != nil && v.Shared && !v.Nil && v.Ptr != nil {
+			if p, ok := first[rt]; ok {
+				return p
+			}
+			p := build(rt, v)
+			first[rt] = p
+			return p
+		}
+		return build(rt, v)
+	}
 }
 
 func genC10(t *rapid.T) c10Case {
